@@ -97,6 +97,8 @@ def _load(unit):
         mod.configure(mod.P)
     mod.CEX = None
     mod.SAMPLES = []
+    mod.OPEN = None
+    mod.OPEN_LIST = []
     if hasattr(mod, "probe"):
         try:
             mod.probe()
@@ -133,6 +135,7 @@ def run_decide(unit):
     for c in checkables:
         msgs += ch["run_checkables"]([c])
     states = [m.state.name for m in msgs]
+    abandoned = (getattr(mod, "OPEN_LIST", None) or []) + ([mod.OPEN] if getattr(mod, "OPEN", None) else [])
     if not msgs:
         status = "UNKNOWN"
     elif any(s in ("POST_FAIL", "EXEC_ERR", "POST_ERR", "PRE_INVALID") for s in states):
@@ -142,9 +145,14 @@ def run_decide(unit):
     elif any(s in ("SYNTAX_ERR", "IMPORT_ERR") for s in states):
         status = "ERROR"
     elif all(s == "CONFIRMED" for s in states):
-        status = "CONFIRMED"
+        status = "CONFIRMED" if not abandoned else "UNKNOWN"   # a path abandoned by the watchdog was not decided
     else:
         status = "UNKNOWN"
+    try:
+        import signal
+        signal.alarm(0)
+    except Exception:  # noqa: BLE001
+        pass
     return {
         "status": status,
         "states": states,
@@ -156,6 +164,7 @@ def run_decide(unit):
         "cpu_s": round(time.process_time() - c0, 2),
         "wall_s": round(time.time() - t0, 2),
         "cex": getattr(mod, "CEX", None),
+        "abandoned": (getattr(mod, "OPEN_LIST", None) or []) + ([mod.OPEN] if getattr(mod, "OPEN", None) else []),
     }
 
 
